@@ -120,7 +120,21 @@ std::string refit(const Args& a) {
 		auto sits = dynamic_cast<BSSubIndexTriShape*>(shape);
 		if (!sits)
 			return std::string("not-a-subindex-shape");
-		if (a[3] != "keep") {
+		if (a[3].rfind("sseg:", 0) == 0) {
+			// sseg:<k> : the SSE-style segment array (BSGeometrySegmentData), k contiguous ranges tiling the triangles
+			uint32_t k = static_cast<uint32_t>(std::stoul(a[3].substr(5))), nt = sits->GetNumTriangles();
+			std::vector<BSGeometrySegmentData> sd;
+			uint32_t pos = 0;
+			for (uint32_t j = 0; j < k; ++j) {
+				BSGeometrySegmentData g;
+				g.index = pos * 3;
+				g.numTris = (j + 1 == k) ? nt - pos : (nt / k + (j % 2)) < (nt - pos) ? (nt / k + (j % 2)) : (nt - pos);
+				pos += g.numTris;
+				sd.push_back(g);
+			}
+			sits->SetSegments(sd);
+		}
+		else if (a[3] != "keep") {
 			NifSegmentationInfo inf;
 			if (a[3] != "-")
 				for (auto& s : split(a[3], ';')) {
